@@ -35,35 +35,160 @@ class E2Error(Exception):
     pass
 
 
+class Sym:
+    """generator-side symbolic stack: explicit top elements (Verus spec terms of type Felt) over the
+    untouched part of s0.  Used ONLY to emit `assert(s_k =~= stk(...))` hints; every hint is checked
+    by the verifier against the hub semantics, so a mistake here can only make a proof fail."""
+
+    def __init__(self):
+        self.top = []          # Felt-typed spec terms
+        self.c = 0             # how many elements of s0 have been consumed
+        self.delta = 0         # net depth change so far
+        self.mind = 0          # minimum net change so far (<= 0): zeros padded = max(0, 16 - len - mind)
+
+    def get(self, i):
+        if i < len(self.top):
+            return self.top[i]
+        return 's0[%d]' % (i - len(self.top) + self.c)
+
+    def pop(self, n=1):
+        out = []
+        for _ in range(n):
+            if self.top:
+                out.append(self.top.pop(0))
+            else:
+                out.append('s0[%d]' % self.c)
+                self.c += 1
+        return out
+
+    def need(self, n):
+        """make the first n elements explicit"""
+        while len(self.top) < n:
+            self.top.append('s0[%d]' % self.c)
+            self.c += 1
+
+    @property
+    def d(self):
+        return 'depth_after(s0.len() as int, %d, %d)' % (self.delta, self.mind)
+
+    def shl(self):
+        self.delta -= 1
+        self.mind = min(self.mind, self.delta)
+
+    def shr(self):
+        self.delta += 1
+
+    def form(self):
+        return 'stk(seq![%s], s0, %d, %s)' % (', '.join(self.top), self.c, self.d) if self.top else 'stk(Seq::<Felt>::empty(), s0, %d, %s)' % (self.c, self.d)
+
+    def step(self, name, imm, advk):
+        v = lambda t: '%s.val()' % t
+        if name == 'Noop' or name == 'U32assert2':
+            return
+        if name.startswith('Dup'):
+            n = int(name[3:]); self.need(n + 1); self.top.insert(0, self.top[n]); self.shr(); return
+        if name.startswith('MovUp'):
+            n = int(name[5:]); self.need(n + 1); self.top.insert(0, self.top.pop(n)); return
+        if name.startswith('MovDn'):
+            n = int(name[5:]); self.need(n + 1); self.top.insert(n, self.top.pop(0)); return
+        if name == 'Swap':
+            self.need(2); self.top[0], self.top[1] = self.top[1], self.top[0]; return
+        if name in ('SwapW', 'SwapW2', 'SwapW3', 'SwapDW'):
+            self.need(16); t = self.top
+            if name == 'SwapW': self.top = t[4:8] + t[0:4] + t[8:]
+            elif name == 'SwapW2': self.top = t[8:12] + t[4:8] + t[0:4] + t[12:]
+            elif name == 'SwapW3': self.top = t[12:16] + t[4:12] + t[0:4] + t[16:]
+            else: self.top = t[8:16] + t[0:8] + t[16:]
+            return
+        if name == 'Pad':
+            self.top.insert(0, 'fe(0)'); self.shr(); return
+        if name == 'Push':
+            self.top.insert(0, 'fe(%s)' % imm); self.shr(); return
+        if name == 'AdvPop':
+            self.top.insert(0, 'adv[%s]' % advk); self.shr(); return
+        if name == 'SDepth':
+            self.top.insert(0, 'fe(%s)' % self.d); self.shr(); return
+        if name in ('Drop', 'Assert'):
+            self.pop(1); self.shl(); return
+        un = {'Neg': 'fe(fneg({a}))', 'Incr': 'fe(fadd({a}, 1))', 'Inv': 'fe(finv({a}))', 'Not': 'b2f({a} == 0)', 'Eqz': 'b2f({a} == 0)'}
+        if name in un:
+            a, = self.pop(1); self.top.insert(0, un[name].format(a=v(a))); return
+        bi = {'Add': 'fe(fadd({a}, {b}))', 'Mul': 'fe(fmul({a}, {b}))', 'And': 'b2f({b} == 1 && {a} == 1)',
+              'Or': 'b2f({b} == 1 || {a} == 1)', 'U32and': 'fe((({a} as u64) & ({b} as u64)) as int)',
+              'U32xor': 'fe((({a} as u64) ^ ({b} as u64)) as int)'}
+        if name in bi:
+            b, a = self.pop(2)      # b = s0 (top), a = s1
+            self.top.insert(0, bi[name].format(a=v(a), b=v(b))); self.shl(); return
+        if name == 'Eq':
+            b, a = self.pop(2); self.top.insert(0, 'b2f(%s == %s)' % (b, a)); self.shl(); return
+        hl = lambda e: ['fe((%s) / B32())' % e, 'fe((%s) %% B32())' % e]
+        if name == 'U32split':
+            a, = self.pop(1); self.top = hl(v(a)) + self.top; self.shr(); return
+        if name == 'U32add':
+            b, a = self.pop(2); self.top = hl('%s + %s' % (v(a), v(b))) + self.top; return
+        if name == 'U32mul':
+            b, a = self.pop(2); self.top = hl('%s * %s' % (v(a), v(b))) + self.top; return
+        if name == 'U32sub':
+            b, a = self.pop(2); self.top = ['b2f(%s < %s)' % (v(a), v(b)), 'fe((%s - %s) %% B32())' % (v(a), v(b))] + self.top; return
+        if name == 'U32div':
+            b, a = self.pop(2); self.top = ['fe(%s %% %s)' % (v(a), v(b)), 'fe(%s / %s)' % (v(a), v(b))] + self.top; return
+        if name == 'U32add3':
+            c, b, a = self.pop(3); self.top = hl('%s + %s + %s' % (v(a), v(b), v(c))) + self.top; self.shl(); return
+        if name == 'U32madd':
+            b, a, c = self.pop(3); self.top = hl('%s * %s + %s' % (v(a), v(b), v(c))) + self.top; self.shl(); return
+        if name == 'CSwap':
+            c, b, a = self.pop(3)
+            self.top = ['(if %s == 1 { %s } else { %s })' % (v(c), a, b), '(if %s == 1 { %s } else { %s })' % (v(c), b, a)] + self.top; self.shl(); return
+        if name == 'Expacc':
+            self.need(4); bit, base, acc, b = self.top[0:4]
+            nb = '(%s %% 2)' % v(b)
+            self.top[0:4] = ['fe(%s)' % nb, 'fe(fmul(%s, %s))' % (v(base), v(base)),
+                             'fe(fmul(%s, if %s == 1 { %s } else { 1 }))' % (v(acc), nb, v(base)), 'fe(%s / 2)' % v(b)]
+            return
+        raise E2Error('no normal-form rule for %s' % name)
+
+
 def parse_sexpr(txt):
-    toks = re.findall(r'\(|\)|\||[^\s()|]+', txt)
+    """(span op op(imm) ... | decorators) (join A B) (split T F) (loop B) (call H) ..."""
     pos = [0]
 
+    def skip_ws():
+        while pos[0] < len(txt) and txt[pos[0]].isspace():
+            pos[0] += 1
+
     def node():
-        assert toks[pos[0]] == '('
+        skip_ws()
+        assert txt[pos[0]] == '(', txt[pos[0]:pos[0] + 20]
         pos[0] += 1
-        kind = toks[pos[0]]
-        pos[0] += 1
+        m = re.match(r'\w+', txt[pos[0]:])
+        kind = m.group(0)
+        pos[0] += len(kind)
         if kind == 'span':
-            ops = []
-            while toks[pos[0]] != '|':
-                ops.append(toks[pos[0]])
-                pos[0] += 1
-            pos[0] += 1
-            decs = []
-            while toks[pos[0]] != ')':
-                decs.append(toks[pos[0]])
-                pos[0] += 1
-            pos[0] += 1
+            bar = txt.index('|', pos[0])
+            ops = txt[pos[0]:bar].split()
+            # decorators may contain parentheses: find the matching close
+            depth, k = 1, bar + 1
+            while depth:
+                if txt[k] == '(':
+                    depth += 1
+                elif txt[k] == ')':
+                    depth -= 1
+                k += 1
+            decs = txt[bar + 1:k - 1].split()
+            pos[0] = k
             return ('span', ops, decs)
         kids = []
-        while toks[pos[0]] != ')':
-            if toks[pos[0]] == '(':
+        while True:
+            skip_ws()
+            if txt[pos[0]] == ')':
+                pos[0] += 1
+                break
+            if txt[pos[0]] == '(':
                 kids.append(node())
             else:
-                kids.append(toks[pos[0]])
-                pos[0] += 1
-        pos[0] += 1
+                m = re.match(r'[^\s()]+', txt[pos[0]:])
+                kids.append(m.group(0))
+                pos[0] += len(m.group(0))
         return (kind, kids)
     return node()
 
@@ -75,6 +200,9 @@ class Gen:
         self.lines = []
         self.n = 0
         self.nops = 0
+        self.sym = None        # when set, per-step normal forms are recorded in self.forms
+        self.forms = []
+        self.advn = 0
 
     def fresh(self):
         self.n += 1
@@ -116,6 +244,10 @@ class Gen:
         m = re.match(r'(\w+)(?:\((\d+)\))?$', op)
         name, imm = m.group(1), m.group(2)
         ns = 's%d' % i
+        if self.sym is not None:
+            prev_form = self.sym.form()
+            self.sym.step(name, imm, self.advn)
+            self.forms.append((ns, self.sym.form(), prev_form, s, op))
         if name in OPS_PURE:
             self.lines.append('let %s = %s;' % (ns, OPS_PURE[name].format(s=s)))
             return (ns, ok, pre, k)
@@ -137,6 +269,11 @@ class Gen:
             self.lines.append('let %s = %s; let ok%d = %s && !fail_u32assert2(%s);' % (ns, s, i, ok, s))
             return (ns, 'ok%d' % i, pre, k)
         if name == 'AdvPop':
+            if self.sym is not None:
+                # single span: the advice index is static
+                self.lines.append('let %s = sem_push(%s, adv[%d]);' % (ns, s, self.advn))
+                self.advn += 1
+                return (ns, ok, pre, k)
             self.lines.append('let %s = sem_push(%s, adv[%s]); let k%d = %s + 1;' % (ns, s, k, i, k))
             return (ns, ok, pre, 'k%d' % i)
         raise E2Error('operation %s has no hub semantics in the lemma generator' % op)
@@ -192,6 +329,10 @@ def generate(specfile, repo, verif):
             raise E2Error('%s: the assembler rejected the source: %s' % (name, d))
         tree = parse_sexpr(d[2])
         g = Gen()
+        if e.get('normal_forms'):
+            if tree[0] != 'span':
+                raise E2Error('%s: normal forms are generated for single-span procedures only' % name)
+            g.sym = Sym()
         st = g.emit_block(tree, ('s0', 'true', 'true', '0int'))
         ident = re.sub(r'\W+', '_', name)
         lines = []
@@ -211,9 +352,34 @@ def generate(specfile, repo, verif):
             lines.append('        &&& ok')
         lines.append('    })')
         lines.append('{')
+        step_lemmas = []
+        if e.get('chain_in_body'):
+            forms = {f[0]: f for f in g.forms}
+            if forms:
+                # the per-step lemmas carry the semantics; keep the definitions folded in this body
+                for fn_ in sorted(set(re.findall(r'\bsem_\w+', ' '.join(g.lines)))):
+                    lines.append('    hide(%s);' % fn_)
+                lines.append('    assert(s0 =~= %s);' % Sym().form())
+            for ln in g.lines:
+                lines.append('    ' + ln)
+                mm = re.match(r'let (s\d+) = ([^;]*);', ln)
+                if mm and mm.group(1) in forms:
+                    ns_, form, prev_form, prev_name, op_ = forms[mm.group(1)]
+                    sem_on_prev = re.sub(r'\b%s\b' % prev_name, '(' + prev_form + ')', mm.group(2))
+                    ln_name = 'step_%s_%s' % (ident, ns_)
+                    step_lemmas.append((ln_name, op_, sem_on_prev, form))
+                    lines.append('    %s(s0, adv);' % ln_name)
+                    lines.append('    assert(%s == %s);' % (ns_, form))
+            lines.append('    let r = %s; let ok = %s; let pre_ok = %s;' % (st[0], st[1], st[2]))
         for h in e.get('hints', []):
             lines.append('    ' + h)
         lines.append('}')
+        for ln_name, op_, sem_on_prev, form in step_lemmas:
+            lines.append('// one step (%s) of %s on the normal form' % (op_, name))
+            lines.append('pub proof fn %s(s0: Seq<Felt>, adv: Seq<Felt>)' % ln_name)
+            lines.append('    requires s0.len() >= 16, adv.len() >= 8,')
+            lines.append('    ensures %s == %s' % (sem_on_prev, form))
+            lines.append('{ assert(%s =~= %s); }' % (sem_on_prev, form))
         index.append((name, len(out), len(lines)))
         info.append({'lemma': name, 'ops': g.nops, 'mast': d[2][:200], 'root_hash': d[1]})
         out.extend(lines)
